@@ -229,7 +229,7 @@ const prelude = `(set-option :produce-models true)
 (define-fun tdiv ((a Int) (b Int)) Int (ite (>= a 0) (ite (> b 0) (div a b) (- (div a (- b)))) (ite (> b 0) (- (div (- a) b)) (div (- a) (- b)))))
 (define-fun tmod ((a Int) (b Int)) Int (- a (* b (tdiv a b))))
 (define-fun str_at ((s Str) (i Int)) Int (select (s_data s) (+ (s_off s) i)))
-(define-fun str_eq ((a Str) (b Str)) Bool (and (= (s_len a) (s_len b)) (forall ((i Int)) (=> (and (<= 0 i) (< i (s_len a))) (= (str_at a i) (str_at b i))))))
+;;STREQ;;
 (define-fun wrap64 ((x Int)) Int (- (mod (+ x 9223372036854775808) 18446744073709551616) 9223372036854775808))
 (define-fun wrap32 ((x Int)) Int (- (mod (+ x 2147483648) 4294967296) 2147483648))
 (define-fun bor8 ((a Int) (b Int)) Int (bv2nat (bvor ((_ int2bv 8) a) ((_ int2bv 8) b))))
@@ -242,6 +242,17 @@ const prelude = `(set-option :produce-models true)
 (declare-fun uf_shr (Int Int) Int)
 (declare-fun uf_strlt (Str Str) Bool)
 (declare-fun uf_concat (Str Str) Str)
+`
+
+const streqAxioms = `(declare-fun str_eq (Str Str) Bool)
+(assert (forall ((a Str) (b Str)) (! (=> (= a b) (str_eq a b)) :pattern ((str_eq a b)))))
+(assert (forall ((a Str) (b Str)) (! (=> (str_eq a b) (and (= (s_len a) (s_len b)) (forall ((i Int)) (! (=> (and (<= 0 i) (< i (s_len a))) (= (str_at a i) (str_at b i))) :pattern ((str_at a i)) :pattern ((str_at b i)))))) :pattern ((str_eq a b)))))
+(assert (forall ((a Str) (b Str)) (! (=> (and (= (s_len a) (s_len b)) (forall ((i Int)) (=> (and (<= 0 i) (< i (s_len a))) (= (str_at a i) (str_at b i))))) (str_eq a b)) :pattern ((str_eq a b)))))
+(assert (forall ((a Str) (b Str)) (! (= (str_eq a b) (str_eq b a)) :pattern ((str_eq a b)))))
+(assert (forall ((a Str) (b Str) (c Str)) (! (=> (and (str_eq a b) (str_eq b c)) (str_eq a c)) :pattern ((str_eq a b) (str_eq b c)))))
+`
+
+const streqDefine = `(define-fun str_eq ((a Str) (b Str)) Bool (and (= (s_len a) (s_len b)) (forall ((i Int)) (=> (and (<= 0 i) (< i (s_len a))) (= (str_at a i) (str_at b i))))))
 `
 
 // Go type -> sort.  Struct sorts are registered on demand in the Sorts registry.
